@@ -789,9 +789,17 @@ impl PGen {
                 format!("⍥({}) {cnt}", self.body(r, depth - 1, l))
             } else if k < 74 {
                 // iteration over scalars: the operand runs once (rows, each, table) or not at all (reduce)
-                let m = *r.pick(&["≡", "≡", "∵", "⊞", "/"]);
-                let l = 1 + r.below(3);
-                format!("{m}({})", self.body(r, depth - 1, l))
+                if r.chance(1, 4) {
+                    // do: the body undoes what the condition leaves; the counter grows up to a bound, so the
+                    // loop ends; sometimes the body fails in some round
+                    let kk = 2 + r.below(4);
+                    let body = *r.pick(&["+1", "+2", "⊙(+1) +1", "+1 ⍤\"boom\" <4 .", "⊙(¯) +1"]);
+                    format!("⍢({body}|<{kk})")
+                } else {
+                    let m = *r.pick(&["≡", "≡", "∵", "⊞", "/"]);
+                    let l = 1 + r.below(3);
+                    format!("{m}({})", self.body(r, depth - 1, l))
+                }
             } else if k < 78 {
                 // under of a dyadic arithmetic function: the do-half saves one argument on the hidden
                 // context stack, the inner function runs (and may fail), the undo-half pops it
